@@ -360,6 +360,21 @@ func (e *Env) ident(name string) (SVal, error) {
 		return e.declareField(e.Recv + "." + name)
 	}
 	if v, ok := e.heapVal(name); ok {
+		if v.K == KLoc && strings.HasSuffix(v.Loc, "^") {
+			// a pointer to a scalar / slice cell: contracts name the cell it points to
+			if pt, ok := v.GoT.Underlying().(*types.Pointer); ok {
+				if dv, ok := e.heapVal(v.Loc); ok {
+					return dv, nil
+				}
+				dv := e.X.load(e.St, v.Loc, pt.Elem(), token.NoPos)
+				if e.Old {
+					if iv, ok := e.heapVal(v.Loc); ok {
+						return iv, nil
+					}
+				}
+				return dv, nil
+			}
+		}
 		return v, nil
 	}
 	if v, ok := e.structVal(name); ok {
